@@ -208,6 +208,7 @@ func c15Extra(r *core.Run, pkg string) {
 // c15ExtraSub: rules about lib/discov itself (subscriber construction).
 func c15ExtraSub(r *core.Run, pkg string) {
 	p := r.P
+	defer c15RemovedKeyLeavesList(r, pkg)
 	defer c15DirtyInHold(r, pkg)
 	r.Check("D4/K3/options-before-container", "the subscriber's container is created after the options were applied: no option runs after newContainer read the exclusive flag (else Exclusive() is silently ignored)", func(o *core.O) {
 		n := 0
